@@ -1438,6 +1438,9 @@ func (s *alphSim) orphanTx(id string, code int) {
 // message must have been confirmed, then demand exactly-once delivery by the polling path.
 func (s *alphSim) settleAndCheck() {
 	s.mu.Lock()
+	// an armed emission that has not fired yet is dropped: fired during the settle phase it would be
+	// a message the waiting time below was not computed for
+	s.raceArm = nil
 	maxLevel := uint64(0)
 	for _, le := range s.govLog {
 		if le.ev.expectFwd && le.ev.level > maxLevel {
